@@ -4,6 +4,7 @@ import (
 	"fmt"
 	"os"
 
+	"owverif.local/verif/checks/c01"
 	"owverif.local/verif/checks/c04"
 	"owverif.local/verif/checks/c06"
 	"owverif.local/verif/checks/c10"
@@ -20,6 +21,9 @@ import (
 )
 
 var registry = map[string]func() *vf.Check{
+	"C01": c01.SpecC01,
+	"C02": c01.SpecC02,
+	"C03": c01.SpecC03,
 	"C04": c04.Spec,
 	"C06": c06.Spec,
 	"C10": c10.Spec,
